@@ -19,7 +19,7 @@ import common
 from common import sexp, parse_sexp
 
 MODEL_FILES = ['MaltModel/Conv/CtxWf.lean', 'MaltModel/Conv/Template.lean', 'MaltModel/Conv/TemplateHyp.lean',
-               'MaltModel/Conv/SrcClass.lean', 'MaltModel/Conv/SexpTotal.lean', 'MaltModel/Proofs/C17Roundtrip.lean',
+               'MaltModel/Conv/SrcClass.lean', 'MaltModel/Conv/Arity.lean', 'MaltModel/Proofs/C17Arity.lean', 'MaltModel/Conv/SexpTotal.lean', 'MaltModel/Proofs/C17Roundtrip.lean',
                'MaltModel/Proofs/C17Ctx.lean', 'MaltModel/Proofs/C17Fresh.lean', 'MaltModel/Proofs/C17Inst.lean',
                'MaltModel/Generated/Templates.lean', 'MaltModel/Drv/C17.lean']
 
@@ -130,6 +130,18 @@ def build_programs(run):
             ncs += 1
     info['composite_state'] = {'space': len(cs), 'core_always_run': len([1 for c in cs if c[0]]), 'stride': cs_stride, 'offset': cs_off,
                                'run': ncs, 'exhaustive': cs_stride == 1}
+    # 3c. signatures (always run): every parameter kind, keyword-only parameters with and without default in every order
+    sigs = c17_gen.SIGNATURES
+    for i, sig in enumerate(sigs):
+        src = progen.PRELUDE + 'def f(%s):\n    x = a\n    if x:\n        x = x + 1\n    return x\n' % sig
+        p = progen.Program(src, [], ['signature_stream'], 'signature')
+        items.append((p, [cfgs[0], cfgs[(3 + i * 5) % 16]], i % 2 == 0, i % 4 == 0))
+    # 3d. entity kinds (always run, to_code oracle on): functions carrying attributes, functools.wraps / update_wrapper
+    #     wrappers, a hand-set __wrapped__, decorated functions, methods' underlying functions
+    for i, src in enumerate(c17_gen.ENTITY_KINDS):
+        p = progen.Program(progen.PRELUDE + src, [], ['entity_kind'], 'entitykind')
+        items.append((p, [cfgs[0], cfgs[(1 + i * 3) % 16]], True, i % 2 == 0))
+    info['always_run'] = {'signatures': len(sigs), 'entity_kinds': len(c17_gen.ENTITY_KINDS)}
     # 4. site coverage outside the 16 option sets: the assert converter only runs under Feature.ASSERT_STATEMENTS
     acfg = [(True, ('ASSERT_STATEMENTS',)), (False, ('ASSERT_STATEMENTS', 'LISTS'))]
     asserts = ['assert a', 'assert a, "msg"', 'assert (a, b)', 'assert a < b < c, f"{a}"', 'assert tr(a), (b, c)',
@@ -211,7 +223,7 @@ def evaluate(run, recs, sources, label):
     kinds = collections.Counter()
     # ---------------- verified checker on every real tree
     tree_recs = [r for r in recs if r.get('tree')]
-    answers = run.drive(['c17.ctxok ' + r['tree'] for r in tree_recs]) if (run.driver_ok and tree_recs) else []
+    answers = run.drive(['c17.treeok ' + r['tree'] for r in tree_recs]) if (run.driver_ok and tree_recs) else []
     # serialisation self-test on every real tree: Lean's verified reader/printer pair gives back exactly what Python sent
     if run.driver_ok and tree_recs:
         echoes = run.drive(['c17.echo ' + r['tree'] for r in tree_recs])
@@ -219,10 +231,14 @@ def evaluate(run, recs, sources, label):
         run.oblige('correspondence:serialisation echo (pyast.Ser -> SexpTotal.readS -> printS) on every real tree' + label,
                    'correspondence', not bad_echo, str(bad_echo[:2]))
     nrej = 0
+    narity = 0
     for r, a in zip(tree_recs, answers):
-        if a != 'True':
+        if not a.startswith('(True '):
             nrej += 1
             r['fails'].append(('ctxOk-rejects-real-tree', a))
+        if not a.endswith(' True)'):
+            narity += 1
+            r['fails'].append(('arityOk-rejects-real-tree', a))
     # ---------------- captured template calls
     uniq = {}
     for r in recs:
@@ -355,6 +371,9 @@ def evaluate(run, recs, sources, label):
                    not hyp_unexplained, json.dumps(hyp_unexplained[:3]))
         run.oblige('checker:ctxOk on the tree returned by transform_ast (all outside listed finding classes)' + label, 'checker',
                    not unattributed.get('ctxOk-rejects-real-tree'), 'rejected %d of %d trees' % (nrej, len(tree_recs)))
+    if run.driver_ok:
+        run.oblige('checker:arityOk (kw_defaults/kwonlyargs, defaults/args, ops/comparators) on the tree returned by transform_ast' + label,
+                   'checker', not unattributed.get('arityOk-rejects-real-tree'), 'rejected %d of %d trees' % (narity, len(tree_recs)))
     for nm in ('node-object-occurs-twice', 'compile-of-tree-fails', 'unparse-raises', 'unparsed-text-does-not-parse', 'reparse-differs',
                'to_code-is-not-the-loaded-text', 'loaded-text-differs-from-transformed-tree', 'running-code-is-not-the-compiled-file-text',
                'module-file-differs-from-unparsed-source', 'conversion-fails-after-transform_ast', 'inconsistent-asts-detected',
